@@ -52,10 +52,18 @@ def run_case(case, ctx):
     b = rng.normal(size=m)
     x = rng.uniform(-2, 2, size=n)
     x = np.where(np.abs(x) < 0.05, 0.5, x)
+    int_dtype = None
+    if case['bounds'] == 'none' and not gradient and case['seed'] % 7 == 3:
+        # integer-valued points handed over in a (small) integer dtype
+        int_dtype = ['int8', 'int16', 'uint8', 'int32', 'int64', 'uint16'][(case['seed'] // 7) % 6]
+        x = np.rint(x * 2.0)
+        x = np.where(x == 0, 1.0, x)
+        if int_dtype.startswith('u'):
+            x = np.abs(x) + 1.0
     if case['bounds'] in ('scalar_zero_lower', 'scalar_zero_upper'):
         x = np.abs(x) if case['bounds'] == 'scalar_zero_lower' else -np.abs(x)
         x[case['seed'] % n] = 0.0           # one coordinate exactly on the limit 0
-    if case['family'] == 'affine' and method == 'complex' and case['bounds'] == 'none' and case['step'] is None and case['seed'] % 2 == 0:
+    if int_dtype is None and case['family'] == 'affine' and method == 'complex' and case['bounds'] == 'none' and case['step'] is None and case['seed'] % 2 == 0:
         # magnitude classes (affine maps with the complex method and its default step: exact to rounding whatever the unit of x;
         # a user-given relative step times a tiny |x| is a subnormal step, which is the user's choice): some coordinates tiny, some huge, one exactly 0
         ctx.count('extreme_magnitude_x_cases')
@@ -133,6 +141,9 @@ def run_case(case, ctx):
         elif k == 1:
             xin = tuple(x.tolist())
             ctx.count('x_given_as:tuple')
+        if int_dtype is not None:
+            xin = x.astype(int_dtype)
+            ctx.count('x_given_as:' + int_dtype)
     args = (scale_arg,) if amode in ('both', 'args') else ()
     kwds = dict(shift=shift_kw) if amode in ('both', 'kwds') else {}
     ctx.count('extra_arguments_given:' + amode)
